@@ -1084,6 +1084,14 @@ func (r *runner) replayScript(cfg Cfg, bg bool, steps []Step) (int, M, bool) {
 			return i, info, predicted
 		}
 	}
+	if monitors["C11"] {
+		// the convergence phase is not part of the recorded steps: it is re-run from the state the script leaves
+		now := r.now
+		do := func(st Step) (M, bool) { return r.apply(w, st) }
+		if info, pred := r.converge(w, cfg, &now, func(n int, dt int64) (M, bool) { return r.settle(w, do, &now, n, dt) }); info != nil {
+			return len(steps), info, pred
+		}
+	}
 	return -1, nil, false
 }
 
@@ -1155,39 +1163,7 @@ func (r *runner) generate(g *gen.G, cfg Cfg, bg bool, o genOpts) ([]Step, int, M
 		}
 		return out
 	}
-	// settle: a few rounds of (complete routers and senders, tick, run every pending store submission in FIFO order)
-	settle := func(rounds int, dt int64) (M, bool) {
-		for i := 0; i < rounds; i++ {
-			for _, h := range append([]*held{}, w.aio.pending...) {
-				var info M
-				var pred bool
-				if h.sqe.Submission.Kind == t_aio.Router {
-					info, pred = do(Step{Op: "route", Tid: h.tid, Seq: h.seq})
-				} else if h.sqe.Submission.Kind == t_aio.Sender {
-					info, pred = do(Step{Op: "send", Tid: h.tid, Seq: h.seq, Outcome: "success"})
-				}
-				if info != nil {
-					return info, pred
-				}
-			}
-			now += dt
-			if info, pred := do(Step{Op: "tick", T: now}); info != nil {
-				return info, pred
-			}
-			var items []Item
-			for _, h := range w.aio.pending {
-				if h.sqe.Submission.Kind == t_aio.Store {
-					items = append(items, Item{Tid: h.tid, Seq: h.seq, Mode: "ok"})
-				}
-			}
-			if len(items) > 0 {
-				if info, pred := do(Step{Op: "exec", Items: items}); info != nil {
-					return info, pred
-				}
-			}
-		}
-		return nil, false
-	}
+	settle := func(rounds int, dt int64) (M, bool) { return r.settle(w, do, &now, rounds, dt) }
 	hasKind := func(k t_api.Kind) bool {
 		for _, x := range o.kinds {
 			if x == k {
@@ -1385,6 +1361,11 @@ func (r *runner) generate(g *gen.G, cfg Cfg, bg bool, o genOpts) ([]Step, int, M
 			return steps, len(steps) - 1, info, pred
 		}
 	}
+	if monitors["C11"] {
+		if info, pred := r.converge(w, cfg, &now, settle); info != nil {
+			return steps, len(steps) - 1, info, pred
+		}
+	}
 	if monitors["C12"] {
 		// quiesce: enough rounds for every accepted request to run to its answer, then each request submitted since the
 		// last crash must have been answered exactly once
@@ -1404,6 +1385,194 @@ func (r *runner) generate(g *gen.G, cfg Cfg, bg bool, o genOpts) ([]Step, int, M
 		}
 	}
 	return steps, -1, nil, false
+}
+
+// settle: a few rounds of (complete routers and senders, tick, run every pending store submission in FIFO order)
+func (r *runner) settle(w *world, do func(Step) (M, bool), now *int64, rounds int, dt int64) (M, bool) {
+	for i := 0; i < rounds; i++ {
+		for _, h := range append([]*held{}, w.aio.pending...) {
+			var info M
+			var pred bool
+			if h.sqe.Submission.Kind == t_aio.Router {
+				info, pred = do(Step{Op: "route", Tid: h.tid, Seq: h.seq})
+			} else if h.sqe.Submission.Kind == t_aio.Sender {
+				info, pred = do(Step{Op: "send", Tid: h.tid, Seq: h.seq, Outcome: "success"})
+			}
+			if info != nil {
+				return info, pred
+			}
+		}
+		*now += dt
+		if info, pred := do(Step{Op: "tick", T: *now}); info != nil {
+			return info, pred
+		}
+		var items []Item
+		for _, h := range w.aio.pending {
+			if h.sqe.Submission.Kind == t_aio.Store {
+				items = append(items, Item{Tid: h.tid, Seq: h.seq, Mode: "ok"})
+			}
+		}
+		if len(items) > 0 {
+			if info, pred := do(Step{Op: "exec", Items: items}); info != nil {
+				return info, pred
+			}
+		}
+	}
+	return nil, false
+}
+
+var cronPeriod = map[string]int64{"* * * * * *": 1000, "*/2 * * * * *": 2000, "*/5 * * * * *": 5000, "*/30 * * * * *": 30000, "* * * * *": 60000, "0 * * * * *": 60000}
+
+// converge: the clients have stopped; the server keeps cycling (every hand-off succeeds, no injected failure). Within a number
+// of cycles bounded by the amount of stored data — for whatever batch / pool sizes the script drew — no promise may remain
+// pending past its timeout, no lock past its lease, no schedule with a next run time in the past, no enqueued / claimed task
+// past its lease or timeout, and no dispatchable task may sit in `init` untouched from one cycle to the next.
+func (r *runner) converge(w *world, cfg Cfg, now *int64, settle func(int, int64) (M, bool)) (M, bool) {
+	num := func(v any) int64 { return jnum(v) }
+	dt := cfg.SignalTimeout
+	if dt < 1 {
+		dt = 1
+	}
+	ceil := func(a, b int) int {
+		if b < 1 {
+			b = 1
+		}
+		return (a + b - 1) / b
+	}
+	viol := func(what string) (M, bool) {
+		return M{"what": "property monitor failed on the implementation", "property": "C11", "diff": what, "property_violation": true}, false
+	}
+	// per item: the cycle by which it must have been dealt with, fixed when it is first seen needing attention
+	// (sweeps take the oldest rows first, `batch` per cycle; the five sweeps take turns when the pool is small: factor 5)
+	promDue, lockDue, taskDue := map[string]int{}, map[string]int{}, map[string]int{}
+	schedLag := map[string][2]int64{} // id -> (round first seen behind, lag then)
+	rounds := 0
+	for round := 0; ; round++ {
+		// one cycle of the idle loop: the clock advances by the signal timeout, then the loop keeps ticking at once
+		// (completions signal it) until nothing is in flight
+		if info, pred := settle(1, dt); info != nil {
+			return info, pred
+		}
+		for i := 0; i < 8 && (len(w.aio.pending) > 0 || len(w.aio.cq) > 0); i++ {
+			if info, pred := settle(1, 0); info != nil {
+				return info, pred
+			}
+		}
+		d, err := dump.Sqlite(w.rdb)
+		if err != nil {
+			return M{"harness": err.Error()}, false
+		}
+		nd, _ := lean.NormalizeValue(d)
+		cur := nd.(map[string]any)
+		t := *now
+		list := func(k string) []any { l, _ := cur[k].([]any); return l }
+		if round == 0 {
+			rounds = 12 + 5*(ceil(len(list("promises")), cfg.PromiseBatchSize)+ceil(2*len(list("tasks")), cfg.TaskBatchSize)) + len(list("locks"))
+			if rounds > 60 {
+				rounds = 60
+			}
+		}
+		// promises
+		overdueNow := 0
+		for _, x := range list("promises") {
+			p := x.(map[string]any)
+			if num(p["state"]) == 1 && num(p["timeout"]) <= t-dt {
+				overdueNow++
+			}
+		}
+		seenP := map[string]bool{}
+		for _, x := range list("promises") {
+			p := x.(map[string]any)
+			id := fmt.Sprint(p["id"])
+			if num(p["state"]) == 1 && num(p["timeout"]) <= t-dt {
+				seenP[id] = true
+				if due, ok := promDue[id]; !ok {
+					promDue[id] = round + 5*ceil(overdueNow, cfg.PromiseBatchSize) + 6
+				} else if round > due {
+					return viol(fmt.Sprintf("promise %s is still pending at clock %d (cycle %d of the idle server), its timeout was %d; %d promises were overdue when it was first seen, batch size %d", id, t, round, num(p["timeout"]), overdueNow, cfg.PromiseBatchSize))
+				}
+			}
+		}
+		// locks: one unbatched sweep
+		for _, x := range list("locks") {
+			l := x.(map[string]any)
+			id := fmt.Sprint(l["resourceId"])
+			if num(l["expiresAt"]) <= t-dt {
+				if due, ok := lockDue[id]; !ok {
+					lockDue[id] = round + 12
+				} else if round > due {
+					return viol(fmt.Sprintf("lock on %s is still held at clock %d (cycle %d of the idle server), its lease ended at %d", id, t, round, num(l["expiresAt"])))
+				}
+			} else {
+				delete(lockDue, id)
+			}
+		}
+		// schedules
+		for _, x := range list("schedules") {
+			sc := x.(map[string]any)
+			id := fmt.Sprint(sc["id"])
+			p, ok := cronPeriod[fmt.Sprint(sc["cron"])]
+			if !ok || strings.Contains(strings.ReplaceAll(strings.ReplaceAll(fmt.Sprint(sc["promiseId"]), "{{.id}}", ""), "{{.timestamp}}", ""), "{{") {
+				continue // cron outside the model's grid, or an id template that does not evaluate (skipped by design)
+			}
+			lagv := t - num(sc["nextRunTime"])
+			if lagv <= p+2*dt {
+				delete(schedLag, id)
+				continue
+			}
+			pool := cfg.CoroutineMaxSize
+			if pool > 5 {
+				pool = 5
+			}
+			if pool < 1 {
+				pool = 1
+			}
+			if p <= dt*int64((5+pool-1)/pool) {
+				// F16: one occurrence per run of SchedulePromises, runs at least `signal timeout` apart (and only every
+				// ceil(5/pool)-th cycle when the scheduler queue is smaller than the five background coroutines): never catches up
+				if known["F16"] {
+					r.counts["known:F16"]++
+					continue
+				}
+				return M{"what": "property monitor failed on the implementation", "property": "C11", "finding": "F16",
+					"diff": fmt.Sprintf("schedule %s (cron %v, period %d ms, signal timeout %d ms, scheduler queue %d) is %d ms behind the clock and cannot catch up: one occurrence is fired per run of SchedulePromises", id, sc["cron"], p, dt, cfg.CoroutineMaxSize, lagv),
+					"property_violation": true}, false
+			}
+			first, ok := schedLag[id]
+			if !ok {
+				schedLag[id] = [2]int64{int64(round), lagv}
+			} else if int64(round)-first[0] >= 12 && lagv >= first[1] {
+				return viol(fmt.Sprintf("schedule %s (period %d ms) was %d ms behind at cycle %d and is %d ms behind at cycle %d of the idle server: it does not catch up", id, p, first[1], first[0], lagv, round))
+			}
+		}
+		// enqueued / claimed tasks past their lease or timeout (skipped when the enqueue delay is shorter than a cycle:
+		// a re-dispatched task is then late again at once and the batch order is by root)
+		if cfg.TaskEnqueueDelay >= dt {
+			lateNow := 0
+			for _, x := range list("tasks") {
+				tk := x.(map[string]any)
+				if st := num(tk["state"]); (st == 2 || st == 4) && (num(tk["expiresAt"]) <= t-dt || num(tk["timeout"]) <= t-dt) {
+					lateNow++
+				}
+			}
+			for _, x := range list("tasks") {
+				tk := x.(map[string]any)
+				id := fmt.Sprintf("%v#%v", tk["id"], tk["counter"])
+				if st := num(tk["state"]); (st == 2 || st == 4) && (num(tk["expiresAt"]) <= t-dt || num(tk["timeout"]) <= t-dt) {
+					if due, ok := taskDue[id]; !ok {
+						taskDue[id] = round + 5*ceil(lateNow, cfg.TaskBatchSize) + 6
+					} else if round > due {
+						return viol(fmt.Sprintf("task %s (state %d) is still past its lease %d / timeout %d at clock %d (cycle %d of the idle server); %d tasks were late when it was first seen, batch size %d", id, st, num(tk["expiresAt"]), num(tk["timeout"]), t, round, lateNow, cfg.TaskBatchSize))
+					}
+				}
+			}
+		}
+		if round >= rounds {
+			r.counts["converged"]++
+			r.counts["converge_rounds"] += round
+			return nil, false
+		}
+	}
 }
 
 // shrink removes whole UNITS (a tick together with the router / sender completions issued right before it —
